@@ -270,7 +270,13 @@ PER_PROP = {
     "C15": ["Python str/int/float/format modelled for decimal ASCII spellings; fractional Flux walltimes are outside "
             "the model; the fake flux module only supplies a handle and a version string"],
     "C16": ["the vocabulary and alive/terminal classification of scheduler states is hand-entered from the "
-            "schedulers' documentation (Model/SchedVocab.lean)"],
+            "schedulers' documentation (Model/SchedVocab.lean)",
+            "`sacct --jobs=<ids>` returns accounting rows, among the conductor's own jobs, only for the ids asked "
+            "about (hypothesis `Honest` of C16_squeue_answer_kept; the scripted sacct of the correspondence keeps "
+            "it: C16_accounting_contract)"],
+    "C11": ["set iteration orders are abstracted as arbitrary permutations; proved order-independent for names, "
+            "workspaces, attached parameters and one instance's parent connections; the whole of stage() is compared "
+            "across interpreters with different hash seeds, not proved"],
     "C18": ["dill / pickle / yaml fidelity is a library property checked by differential runs, not proved"],
     "C19": ["/bin/bash, the OS process model and the file system are sampled by end-to-end CLI runs"],
 }
